@@ -285,6 +285,70 @@ func c12AliasedStruct(c *wk.Ctx) {
 	}
 }
 
+type c12FieldA struct {
+	A int64 `json:"a"`
+}
+
+type c12FieldB struct {
+	A int `json:"a"`
+}
+
+// c12SharedProperty: ONE property schema (treat-empty-as-default, minimum 1) used by two struct-mapped objects whose
+// fields have different Go integer types. What one object has been asked before must not change what the other answers:
+// after every history both answer like freshly built ones.
+func c12SharedProperty(c *wk.Ctx) {
+	build := func() (schema.Type, schema.Type) {
+		p := schema.NewPropertySchema(schema.NewIntSchema(schema.IntPointer(1), nil, nil), nil, false, nil, nil, nil, nil, nil).TreatEmptyAsDefaultValue()
+		return schema.NewStructMappedObjectSchema[c12FieldA]("A", map[string]*schema.PropertySchema{"a": p}),
+			schema.NewStructMappedObjectSchema[c12FieldB]("B", map[string]*schema.PropertySchema{"a": p})
+	}
+	probe := func(t schema.Type, v any) string {
+		var out any
+		var verr, serr error
+		if p, site, _, _ := wk.Guard(func() { verr = t.Validate(v); out, serr = t.Serialize(v) }); p {
+			return "panic@" + site
+		}
+		return fmt.Sprintf("validate ok=%v serialize ok=%v %s", verr == nil, serr == nil, cmpx.Canon(out))
+	}
+	valsA := []any{c12FieldA{}, c12FieldA{A: 5}, c12FieldA{A: -2}}
+	valsB := []any{c12FieldB{}, c12FieldB{A: 5}, c12FieldB{A: -2}}
+	freshA, freshB := build()
+	var wantA, wantB []string
+	for i := range valsA {
+		fa, fb := build() // a pristine pair for every expectation
+		_ = fb
+		wantA = append(wantA, probe(fa, valsA[i]))
+		_, fb2 := build()
+		wantB = append(wantB, probe(fb2, valsB[i]))
+	}
+	_, _ = freshA, freshB
+	for order := 0; order < 2; order++ {
+		a, b := build()
+		first, second, fv, sv, fw, sw := a, b, valsA, valsB, wantA, wantB
+		if order == 1 {
+			first, second, fv, sv, fw, sw = b, a, valsB, valsA, wantB, wantA
+		}
+		for round := 0; round < 3; round++ {
+			for i := range fv {
+				c.Count("probe_evaluations")
+				if got := probe(first, fv[i]); got != fw[i] {
+					c.Violation("C12:history-dependent:shared-property", fmt.Sprintf("object used first (order %d, round %d): %s on %#v, a fresh schema gives %s", order, round, got, fv[i], fw[i]), nil)
+					return
+				}
+			}
+			for i := range sv {
+				c.Count("probe_evaluations")
+				if got := probe(second, sv[i]); got != sw[i] {
+					c.Violation("C12:history-dependent:shared-property", fmt.Sprintf("two struct-mapped objects share one property schema; after the other object was used (order %d, round %d) this one gives %s on %#v, a fresh schema gives %s", order, round, got, sv[i], sw[i]),
+						map[string]any{"value": fmt.Sprintf("%#v", sv[i]), "got": got, "fresh": sw[i]})
+					return
+				}
+			}
+		}
+	}
+	c.Eval(wk.Hash64("directed-shared-property"), true)
+}
+
 func runC12(c *wk.Ctx) {
 	c.Meta("rule", "per case: one generated shape built twice (a 'used' and a 'fresh' instance, each with its own self / twin / incompatible-mutant schema arguments); a probe set (valid inputs in random representations, perturbed and hostile inputs for Unserialize; natives for Validate/Serialize; data and schema arguments for ValidateCompatibility) is first evaluated on the fresh instance. The used instance then goes through a random history of 1..30 calls (accepted, rejected and default-filling ones, failing schema comparisons), with a deep snapshot of every argument before and after, and with every container reachable from every returned value overwritten in place. Afterwards each probe is evaluated 16 times on the used instance. Oracle: the argument snapshot is unchanged by the call and by scrambling the result; all 16 evaluations agree; they equal the fresh instance's outcome; SelfSerialize of the used scope equals that of the fresh one. distinct = hash(shape, history); non-trivial = history length >= 2")
 	c.Meta("assumptions", []string{"GetDefaults() is deliberately not compared (the SDK extends decoded sub-object defaults in place, which changes that accessor but neither the self-description nor behaviour)",
@@ -303,6 +367,8 @@ func runC12(c *wk.Ctx) {
 	if c.Mine(2) {
 		c.Begin(2, "directed: a struct-mapped member under two one-of keys, serialized")
 		c12AliasedStruct(c)
+		c.Note("directed: one property schema shared by two struct-mapped objects")
+		c12SharedProperty(c)
 	}
 	// "a function of (schema, argument) only" also from the very first evaluations, which fill the lazily built tables
 	// of unit definitions: 8 goroutines use a fresh definition at once, every result is what a twin used by one
